@@ -777,16 +777,16 @@ func (t *txbGen) manual(w string) {
 	switch r.Intn(7) {
 	case 0:
 		total = totalIn - feeNC // exactly: no change
-		cls += "-exact"
+		l.g.Stats["man+exact"]++
 	case 1:
 		total = totalIn - feeWC + int64(r.Intn(3)) - 1 // around the with-change boundary
-		cls += "-boundary"
+		l.g.Stats["man+boundary"]++
 	case 2:
 		total = totalIn + int64(r.Intn(100000)) // not enough
-		cls += "-short"
+		l.g.Stats["man+short"]++
 	case 3:
 		total = totalIn - feeWC - 1 - r.Int63n(7000) // dust change
-		cls += "-dustchange"
+		l.g.Stats["man+dustchange"]++
 	default:
 		total = 1 + r.Int63n(totalIn+1)
 	}
@@ -810,16 +810,18 @@ func (t *txbGen) manual(w string) {
 		}
 		if len(ss) > 0 {
 			sub = strings.Join(ss, ";")
-			cls += "-subfee"
+			l.g.Stats["man+subfee"]++
 		}
 	}
 	chg := "-"
 	if r.Intn(3) == 0 {
 		chg = l.anyDest()
+		l.g.Stats["man+chg"]++
 	}
 	opn := "man"
 	if r.Intn(8) == 0 {
 		opn = "apiman"
+		l.g.Stats["man+api"]++
 	}
 	l.op(cls, "%s %s %d %s %s %s %s", opn, w, r.Intn(2)*9, chg, sub, strings.Join(specs, ";"), outs)
 	t.drafts++
@@ -893,7 +895,7 @@ func (t *txbGen) burst() {
 func genTxbHistory(g *Gen, kind string) {
 	l := newLedGen(g, "txb")
 	t := &txbGen{ledGen: l, scale: 100000000}
-	if g.Rng.Intn(3) == 0 {
+	if kind == "" && g.Rng.Intn(3) == 0 {
 		t.scale = 1000000 // poor wallets: fees matter
 	}
 	l.maxAddr = 4
@@ -915,7 +917,7 @@ func genTxbHistory(g *Gen, kind string) {
 	case "overfull":
 		// more than k coins in one wallet: the selector's cap is reached
 		w := l.wallets[0]
-		for i := 0; i < 8 && !t.fanout(w, txbK+1+g.Rng.Intn(120), 20000, 60000); i++ {
+		for i := 0; i < 14 && !t.fanout(w, txbK+1+g.Rng.Intn(120), 20000, 60000); i++ {
 			t.extend()
 		}
 		l.drain()
@@ -976,7 +978,7 @@ func genTxb(g *Gen) {
 		switch {
 		case h%10 == 3:
 			kind = "feeloop"
-		case h%35 == 5:
+		case h%25 == 5:
 			kind = "overfull"
 		}
 		genTxbHistory(g, kind)
